@@ -152,7 +152,7 @@ CHECKS: dict[str, dict] = {
     "C08": {
         "engine": "E1-reference-machine",
         "technique": "generated store/load programs over Solidity-layout location expressions executed by TLC on the flat slot map of the TLA+ reference EVM; halmos paths compared pointwise under both storage layouts",
-        "text": "Programs perform 2-6 stores/loads over location expressions (scalars, mappings with 32-byte and short keys, dynamic arrays, struct offsets, nested to depth 3) written in several syntactic forms (run-time SHA3, PUSH32 of the precomputed hash, additions in either order and re-associated) with symbolic keys and indices, then re-read every location in another form; TLC executes them on Evm.tla (storage is a flat map slot -> word) for inputs from small colliding domains and large values, and every halmos path covering an input must return exactly the reference words, under --storage-layout solidity and generic, for SSTORE/SLOAD and TSTORE/TLOAD. A two-transaction run_contract scenario checks that transient storage written by setUp() is empty in the test.",
+        "text": "Programs perform 2-6 stores/loads over location expressions (scalars, mappings with 32-byte and short keys, dynamic arrays, struct offsets, nested to depth 3) written in several syntactic forms (run-time SHA3, PUSH32 of the precomputed hash, additions in either order and re-associated) with symbolic keys and indices, then re-read every location in another form; TLC executes them on Evm.tla (storage is a flat map slot -> word) for inputs from small colliding domains and large values, and every halmos path covering an input must return exactly the reference words, under --storage-layout solidity and generic, for SSTORE/SLOAD and TSTORE/TLOAD; half of the programs fork on a symbolic bit before the final reads. Programs over accounts with symbolic storage (enabled initially or by cheatcode) mix persistent and transient accesses of the same locations. A two-transaction run_contract scenario checks that transient storage written by setUp() is empty in the test. HashRegistry.tla models KeccakRegistry/OffsetMap (ids, block-aligned reverse lookup, copies made at forks and transactions); TLC checks soundness and in-block completeness of every lookup, id stability, completeness of copies and privacy of later registrations, refutes three design mutations, and every enumerated history (operations x hash-value assignments) is replayed into the real classes with the full lookup and id tables compared after each step.",
         "note": "Array indices are kept below 2^64 (halmos' documented hash-range assumption); symbolic base slots end stuck in the solidity layout and are not judged. Two limits of the hash reverse lookup are recorded findings (KNOWN_FINDINGS.json) exercised by fixed probes; the random corpus uses constant forms only within the reach of that mechanism.",
         "design_ref": "5 C08",
     },
@@ -166,14 +166,14 @@ CHECKS: dict[str, dict] = {
     "C10": {
         "engine": "E2-exploration-model",
         "technique": "SymExec.tla (SEVM.jumpi unroll accounting with injected solver `unknown`s) model-checked by TLC; every terminal state replayed into SEVM.run with the same fault schedule; run_contract scenarios with captured paths",
-        "text": "SymExec.tla models the exploration of a symbolic loop exactly as SEVM.jumpi does it (potential/must answers, per-path visit counts, DFS order, concretised inputs) with the solver allowed to answer `unknown` at chosen queries; TLC checks that an input is dropped only when the bounded flag is raised, that determined loops are never cut and that yielded paths are sound, and prints every terminal state; each is replayed into SEVM.run on the assembled loop with the `unknown`s injected at the same check() calls, and the yielded paths (covered inputs, return value), the flag and the number of solver queries must coincide. At the run_contract level the explored paths of regular tests, setUp() and invariant target calls are captured and evaluated on an argument grid: inputs covered by no path require a loop-bound / --width / --depth warning or a non-PASS status; a concrete loop above the bound must be explored to its end; an unsupported opcode must not end in PASS.",
+        "text": "SymExec.tla models the exploration of a symbolic loop exactly as SEVM.jumpi does it (potential/must answers, per-path visit counts, DFS order, concretised inputs) with the solver allowed to answer `unknown` at chosen queries; TLC checks that an input is dropped only when the bounded flag is raised, that determined loops are never cut and that yielded paths are sound, and prints every terminal state; each is replayed into SEVM.run on the assembled loop with the `unknown`s injected at the same check() calls, and the yielded paths (covered inputs, return value), the flag and the number of solver queries must coincide. At the run_contract level the explored paths of regular tests, setUp() and invariant target calls are captured and evaluated on an argument grid: inputs covered by no path require a loop-bound / --width / --depth warning or a non-PASS status; a concrete loop above the bound must be explored to its end; an unsupported opcode must not end in PASS - in the test itself, one or two frames below it, inside setUp() (also in a nested call of setUp), inside an invariant target, and also when the solver asked to confirm the stopped path answers unknown / garbage / an error / nothing; two contracts of one run with a test of the same signature cut by --depth must both be reported.",
         "note": "The model covers the loop-shaped use of JUMPI (the shape the unrolling bound is about); replay uses a wrapper around Exec.check for fault injection, all other queries reach z3.",
         "design_ref": "5 C10, A.2",
     },
     "C11": {
         "engine": "query-model",
         "technique": "SolverQuery.tla (design model + validation of observations recorded from to_smt2/dump/refine) checked by TLC; dumped SMT-LIB text re-parsed and evaluated pointwise against the in-memory path constraints",
-        "text": "SolverQuery.tla models what is serialised for a path (all constraints whatever the in-memory solver holds, plain or guarded-and-named, refinement turning exactly the refinable abstraction declarations into definitions) with invariants QueryHasAllConditions / NamedEncodingEquisat checked by TLC, and validates one observation record per dumped file. For every non-stuck path of programs branching on each arithmetic abstraction, of the E1 families and of run_contract tests (regular tests after setUp, invariant tests extending a sliced state) the real to_smt2/dump/refine are invoked with and without --cache-solver; each of the 4 files is taken apart into an observation (TLC) and re-parsed with z3 and evaluated at the path's inputs: it must be true exactly where the conjunction of Path.conditions is true; refined files are evaluated without any interpretation for the refinable abstractions, so a missing or wrong definition shows up.",
+        "text": "SolverQuery.tla models what is serialised for a path (all constraints whatever the in-memory solver holds, plain or guarded-and-named, refinement turning exactly the refinable abstraction declarations into definitions) with invariants QueryHasAllConditions / NamedEncodingEquisat checked by TLC, and validates one observation record per dumped file. For every non-stuck path of programs branching on each arithmetic abstraction, of the E1 families and of run_contract tests (regular tests after setUp, invariant tests extending a sliced state) the real to_smt2/dump/refine are invoked with and without --cache-solver; each of the 4 files is taken apart into an observation (TLC) and re-parsed with z3 and evaluated at the path's inputs: it must be true exactly where the conjunction of Path.conditions is true; refined files are evaluated without any interpretation for the refinable abstractions, so a missing or wrong definition shows up. End to end, the solver is started through a wrapper that journals the text of the file it is started on (two contracts with a test of the same name sharing one --dump-smt-directory, plain and --cache-solver): every journalled text must contain the query of the PathContext being solved, and the verdicts must be those of the tests.",
         "note": "Pointwise agreement on the inputs of the path's table, not a proof of logical equivalence. f_evm_exp is never refined by halmos; queries containing it are compared unrefined only.",
         "design_ref": "5 C11",
     },
@@ -236,7 +236,7 @@ CHECKS: dict[str, dict] = {
     "C20": {
         "engine": "testrun-model",
         "technique": "TestRun.tla (every test starts from a private copy of the post-setUp state; 'shared' mode as refuted negative control) enumerates all test orders with repetition; each history replayed through one run_contract call",
-        "text": "TestRun.tla states EachTestStartsFromSetup and ResultIndependentOfHistory over an abstract world (storage, transient storage, balance, created code, timestamp, frontier cache); TLC proves them for the specified 'copy' mode, refutes them for the 'shared' mode and enumerates every order with repetition of up to 2 (quick) / 3 (thorough) of 12 tests. Each history is replayed in one process through the real run_contract on a contract whose tests write, respectively assert the initial value of, each kind of state (plus two invariant tests sharing the cached frontier): the exit code of every test must equal the model's and its normalised result (verdict, path counts, counterexamples with uid suffixes stripped) must be identical in every history and across repeated runs.",
+        "text": "TestRun.tla states EachTestStartsFromSetup and ResultIndependentOfHistory over an abstract world (storage, transient storage, balance, created code, timestamp, frontier cache); TLC proves them for the specified 'copy' mode, refutes them for the 'shared' mode and enumerates every order with repetition of up to 2 (quick) / 3 (thorough) of 18 tests. Each history is replayed in one process through the real run_contract on a contract whose tests write, respectively assert the initial value of, each kind of state (plus two invariant tests sharing the cached frontier): the exit code of every test must equal the model's and its normalised result (verdict, path counts, counterexamples with uid suffixes stripped) must be identical in every history and across repeated runs. The model also carries the configuration in force, the alias cache, learnt substitutions and the solver executor (constant EarlyExit: a test that finds a counterexample shuts its own executor down; a shared executor is the refuted negative control); the histories in which an earlier test fails are replayed again under --early-exit.",
         "note": "Sibling-path isolation is covered by the E1 soundness checks of C01/C09 on branching programs. The abstract world has one key per kind of state.",
         "design_ref": "5 C20",
     },
